@@ -240,9 +240,11 @@ func confirmAndShrink(sc scen.Scenario, c workerCfg, ui int, useed uint64, force
 	if tr != "" || hasClass(o1, class) == nil {
 		return "", fmt.Sprintf("unit %d: violation %q did not reproduce from its own tape (non-determinism in the harness): %s %s", ui, class, v.Msg, tr)
 	}
-	budget := 400
+	// in-process scenarios run in well under a millisecond: the budget is time, not tries
+	budget := 20000
+	shrinkFor := 4 * time.Second
 	if c.Tier == "thorough" {
-		budget = 1500
+		shrinkFor = 15 * time.Second
 	}
 	if sb := sc.Info().ShrinkBudget; sb > 0 {
 		budget = sb
@@ -250,7 +252,10 @@ func confirmAndShrink(sc scen.Scenario, c workerCfg, ui int, useed uint64, force
 	if !shrink {
 		budget = 0 // many classes at once: only the first few per worker are minimised
 	}
-	deadline := time.Now().Add(90 * time.Second)
+	if sc.Info().ShrinkBudget > 0 {
+		shrinkFor = 90 * time.Second // child-process scenarios: bounded by tries
+	}
+	deadline := time.Now().Add(shrinkFor)
 	minTape, tries := sim.Shrink(rec, func(cand []sim.Entry) ([]sim.Entry, bool) {
 		if time.Now().After(deadline) {
 			return nil, false
